@@ -28,6 +28,10 @@ func NewCaseBound(o Opts) (*Case, error) {
 	c.ClusterName = c.Name + "_cluster"
 	c.RouterName = c.Name + "_router"
 	sock, err := net.Listen("tcp", "127.0.0.1:0")
+	for i := 0; err != nil && i < 100; i++ { // ephemeral ports exhausted by TIME_WAIT sockets of a busy machine: wait
+		time.Sleep(100 * time.Millisecond)
+		sock, err = net.Listen("tcp", "127.0.0.1:0")
+	}
 	if err != nil {
 		return nil, err
 	}
